@@ -301,6 +301,25 @@ func c24(r *Run) {
 
 	wp := r.fn(w, "C24.R1", "("+H+"/state.Keys).WithoutPermissions")
 	if wp != nil {
+		// every key of the map is listed: the append is controlled by the loop alone and lies on every way round it
+		ap := findEffects(wp, "call builtin.append(phi(*), [next(range(p0))#1])")
+		every := len(ap) == 1
+		if every {
+			for _, c := range ap[0].Conds() {
+				if !isLoopCond(c) {
+					every = false
+				}
+			}
+			if h, _ := innermostLoop(ap[0].Ins.Block()); h != nil && len(h.Succs) == 2 {
+				hdr := func(i ssa.Instruction) bool { return i.Block() == h && instrIndex(i) == 0 }
+				if skip, _ := pathExists(point{h.Succs[0], 0}, hdr, isInstr(ap[0].Ins), nil); skip {
+					every = false
+				}
+			} else {
+				every = false
+			}
+		}
+		r.check(every, "C24.R1", "WithoutPermissions:every-key", w.rel(wp.Pos()), "", "Keys.WithoutPermissions leaves some declared keys out of the list that is prefetched: the transaction observes them as absent although the parent holds them")
 		n := 0
 		eachInstr(wp, func(i ssa.Instruction) {
 			ms, ok := i.(*ssa.MakeSlice)
@@ -359,6 +378,17 @@ func c24(r *Run) {
 		r.requireEffect(w, "C24.R2", "runWorker:present=>value", rw, "call (*internal/fetcher.Fetcher).set(p0, *.key, "+gv+"#0, true, keys.NumChunks("+gv+"#0)#0)", "!errors.Is("+gv+"#1, ago/database.ErrNotFound)", gv+"#1 == nil", "keys.NumChunks("+gv+"#0)#1")
 		r.requireEffect(w, "C24.R2", "runWorker:other-error=>handleErr", rw, "call (*internal/fetcher.Fetcher).handleErr(p0, "+gv+"#1)", "!errors.Is("+gv+"#1, ago/database.ErrNotFound)", gv+"#1 != nil")
 		r.requireEffect(w, "C24.R2", "runWorker:bad-value=>handleErr", rw, "call (*internal/fetcher.Fetcher).handleErr(p0, internal/fetcher.ErrInvalidKeyValue)", "!keys.NumChunks("+gv+"#0)#1")
+		// a failed read is reported whatever else holds (a read that fails while the context is cancelled still has to
+		// stop the fetcher: waiters block on it): nothing but the read's own outcome and the task select controls the report
+		for _, he := range findEffects(rw, "call (*internal/fetcher.Fetcher).handleErr(p0, "+gv+"#1)") {
+			extra := ""
+			for _, c := range he.Conds() {
+				if !(strings.Contains(c, "GetValue(p0.im, ") || c == "select#1" || strings.HasSuffix(c, " == select#0") || strings.HasPrefix(c, "select#0 == ")) {
+					extra = c
+				}
+			}
+			r.check(extra == "", "C24.R2", "runWorker:read-error-always-reported", r.at(w, he.Ins), "", "a read error is reported only under an additional condition ("+extra+"): otherwise the worker drops it, the fetcher is never stopped and Get blocks forever")
+		}
 		// after handleErr the worker returns (does not mark the key)
 		for _, he := range findEffects(rw, "call (*internal/fetcher.Fetcher).handleErr(*") {
 			found, _ := pathExists(after(he.Ins), func(i ssa.Instruction) bool {
